@@ -292,11 +292,19 @@ func (c *Ctx) checkFrame(fr *Frame, env *Env, entryCut int) []string {
 // ------------------------------------------------------------------
 // discharge
 
-func (o *Obligation) query() string {
+func (o *Obligation) query() string { return o.queryVariant(false) }
+
+// queryVariant(true) drops every quantified assumption: fewer assumptions, so
+// unsat is still a proof, and the query is quantifier-free for the solver's
+// non-linear arithmetic procedures. Its sat answers mean nothing.
+func (o *Obligation) queryVariant(dropQuantified bool) string {
 	var b strings.Builder
 	b.WriteString("(set-option :produce-models true)\n")
 	b.WriteString(goDivPrelude)
 	for _, l := range o.ctx.lines[:o.Prefix] {
+		if dropQuantified && strings.HasPrefix(l, "(assert") && (strings.Contains(l, "(forall ") || strings.Contains(l, "(exists ")) {
+			continue
+		}
 		b.WriteString(l)
 		b.WriteString("\n")
 	}
@@ -327,7 +335,13 @@ func discharge(o *Obligation, outDir string, timeoutS int) *OblResult {
 	}
 	q := o.query()
 	r.Query = q
-	sr := solve(outDir, o.Name, q, timeoutS, 0)
+	variants := []queryVariant{{"", q, true}}
+	if !o.ExpectSat && !strings.Contains(o.Goal.S, "(forall ") && !strings.Contains(o.Goal.S, "(exists ") {
+		if qf := o.queryVariant(true); len(qf) != len(q) {
+			variants = append(variants, queryVariant{"qf", qf, false})
+		}
+	}
+	sr := solve(outDir, o.Name, variants, timeoutS)
 	r.Solver, r.Ms, r.Output, r.AllStat = sr.Solver, sr.Ms, sr.Output, sr.All
 	switch {
 	case o.ExpectSat && sr.Status == "sat":
